@@ -247,36 +247,49 @@ package dnsmsg
 //@   props C01 C20
 //@   requires r != nil
 //@   modifies r.ResourceHdr, r.A
+//@   ensures [C20:marks-released] old(r.Name) != nil ==> attr(released, old(r.Name))
 //@   ensures r.Name == nil
 //@ func ReleaseAAAA(r *AAAA)
 //@   props C01 C20
 //@   requires r != nil
 //@   modifies r.ResourceHdr, r.AAAA
+//@   ensures [C20:marks-released] old(r.Name) != nil ==> attr(released, old(r.Name))
 //@   ensures r.Name == nil
 //@ func ReleaseMX(r *MX)
 //@   props C01 C20
 //@   requires r != nil
 //@   modifies r.ResourceHdr, r.Pref, r.MX
+//@   ensures [C20:marks-released] old(r.Name) != nil ==> attr(released, old(r.Name))
+//@   ensures [C20:marks-released] old(r.MX) != nil ==> attr(released, old(r.MX))
 //@   ensures r.Name == nil && r.MX == nil
 //@ func ReleaseNAME(r *NAMEResource)
 //@   props C01 C20
 //@   requires r != nil
 //@   modifies r.ResourceHdr, r.NameData
+//@   ensures [C20:marks-released] old(r.Name) != nil ==> attr(released, old(r.Name))
+//@   ensures [C20:marks-released] old(r.NameData) != nil ==> attr(released, old(r.NameData))
 //@   ensures r.Name == nil && r.NameData == nil
 //@ func ReleaseSOA(r *SOA)
 //@   props C01 C20
 //@   requires r != nil
 //@   modifies r.ResourceHdr, r.NS, r.MBox, r.Serial, r.Refresh, r.Retry, r.Expire, r.MinTTL
+//@   ensures [C20:marks-released] old(r.Name) != nil ==> attr(released, old(r.Name))
+//@   ensures [C20:marks-released] old(r.NS) != nil ==> attr(released, old(r.NS))
+//@   ensures [C20:marks-released] old(r.MBox) != nil ==> attr(released, old(r.MBox))
 //@   ensures r.Name == nil && r.NS == nil && r.MBox == nil
 //@ func ReleaseSRV(r *SRV)
 //@   props C01 C20
 //@   requires r != nil
 //@   modifies r.ResourceHdr, r.Priority, r.Weight, r.Port, r.Target
+//@   ensures [C20:marks-released] old(r.Name) != nil ==> attr(released, old(r.Name))
+//@   ensures [C20:marks-released] old(r.Target) != nil ==> attr(released, old(r.Target))
 //@   ensures r.Name == nil && r.Target == nil
 //@ func ReleaseRaw(r *RawResource)
 //@   props C01 C20
 //@   requires r != nil
 //@   modifies r.ResourceHdr, r.Data
+//@   ensures [C20:marks-released] old(r.Name) != nil ==> attr(released, old(r.Name))
+//@   ensures [C20:marks-released] old(r.Data) != nil ==> attr(released, old(r.Data))
 //@   ensures r.Name == nil && r.Data == nil && r.Type == 0 && r.Class == 0 && r.TTL == 0 && r.Length == 0
 
 //@ func ReleaseResource(r Resource)
@@ -351,7 +364,15 @@ package dnsmsg
 //@   modifies nothing
 //@   ensures err == nil ==> dynNonNil(r) && fresh(r) && off < noff && noff <= len(msg)
 //@   ensures err != nil ==> r == nil
+// error paths: the owner name is released once (by whoever holds the header at that point)
 //@   callsite ReleaseBuf?: [C20:no-double-release] !attr(released, arg0)
+//@   callsite ReleaseA?: [C20:no-double-release] arg0.Name == nil || !attr(released, arg0.Name)
+//@   callsite ReleaseAAAA?: [C20:no-double-release] arg0.Name == nil || !attr(released, arg0.Name)
+//@   callsite ReleaseMX?: [C20:no-double-release] arg0.Name == nil || !attr(released, arg0.Name)
+//@   callsite ReleaseNAME?: [C20:no-double-release] arg0.Name == nil || !attr(released, arg0.Name)
+//@   callsite ReleaseSOA?: [C20:no-double-release] arg0.Name == nil || !attr(released, arg0.Name)
+//@   callsite ReleaseSRV?: [C20:no-double-release] arg0.Name == nil || !attr(released, arg0.Name)
+//@   callsite ReleaseRaw?: [C20:no-double-release] arg0.Name == nil || !attr(released, arg0.Name)
 
 // ---- msg.go ------------------------------------------------------------------------------
 
